@@ -244,6 +244,14 @@ func (m *Machine) global(g *ssa.Global) *Value {
 	}
 	cell := new(Value)
 	*cell = m.zero(g.Type().(*types.Pointer).Elem())
+	if g.Pkg != nil && g.Pkg.Pkg.Path() == "crypto/rand" && g.Name() == "Reader" {
+		// crypto/rand is not initialised by the executor: rand.Reader is the package's reader, whose Read is an intrinsic
+		if t := m.P.namedType("crypto/rand", "reader"); t != nil {
+			rc := new(Value)
+			*rc = m.zero(t)
+			*cell = Iface{T: types.NewPointer(t), V: rc}
+		}
+	}
 	m.globals[g] = cell
 	return cell
 }
